@@ -217,12 +217,23 @@ fn align_as_int<R: Round, const B: Word>(lhs: FBig<R, B>, rhs: FBig<R, B>) -> (I
 }
 
 impl<R: Round> Context<R> {
-    pub(crate) fn repr_div<const B: Word>(&self, lhs: Repr<B>, rhs: Repr<B>) -> Rounded<Repr<B>> {
+    pub(crate) fn repr_div<const B: Word>(
+        &self,
+        lhs: Repr<B>,
+        mut rhs: Repr<B>,
+    ) -> Rounded<Repr<B>> {
         assert_finite_operands(&lhs, &rhs);
         assert_limited_precision(self.precision);
 
-        // this method don't deal with the case where lhs significand is too large
-        debug_assert!(lhs.digits() <= self.precision + rhs.digits());
+        // A dividend with more than precision + rhs.digits() digits would give a quotient
+        // that is longer than the precision. Divide by rhs * B^shift in that case: no digit
+        // of the dividend is dropped and the quotient is rounded only once.
+        let (ldigits, rdigits) = (lhs.digits(), rhs.digits());
+        if ldigits > self.precision + rdigits {
+            let shift = ldigits - self.precision - rdigits;
+            shl_digits_in_place::<B>(&mut rhs.significand, shift);
+            rhs.exponent -= shift as isize;
+        }
 
         let (mut q, mut r) = lhs.significand.div_rem(&rhs.significand);
         let mut e = lhs.exponent - rhs.exponent;
@@ -355,15 +366,7 @@ impl<R: Round> Context<R> {
     pub fn div<const B: Word>(&self, lhs: &Repr<B>, rhs: &Repr<B>) -> Rounded<FBig<R, B>> {
         assert_finite_operands(lhs, rhs);
 
-        let lhs_repr = if !lhs.is_zero() && lhs.digits_ub() > rhs.digits_lb() + self.precision {
-            // shrink lhs if it's larger than necessary
-            Self::new(rhs.digits() + self.precision)
-                .repr_round_ref(lhs)
-                .value()
-        } else {
-            lhs.clone()
-        };
-        self.repr_div(lhs_repr, rhs.clone())
+        self.repr_div(lhs.clone(), rhs.clone())
             .map(|v| FBig::new(v, *self))
     }
 
